@@ -3,7 +3,7 @@ import ShootVerif.Spec.Merge
 namespace ShootVerif.Drive
 open ShootVerif.Merge
 
-/-- `(file (pkg p) (comments (pos end "text")…) (imports ("name" "path")…) (decls (imp|decl pos end "text")…))` -/
+/-- `(file (pkg p) (comments (pos end "text")…) (imports ("name" "path")…) (decls (imp|decl pos end "text" docpos|-)…))` -/
 def parseMFile (s : Sexp) : Option File := do
   let pkg ← match s.field? "pkg" with
     | some (.list [_, .atom p]) => some p
@@ -17,6 +17,8 @@ def parseMFile (s : Sexp) : Option File := do
   let ds ← ((s.field? "decls").map Sexp.args |>.getD []).mapM (fun c => match c with
     | .list [.atom k, p, e, .atom t] => do
       some ({ isImport := k == "imp", pos := ← p.asNat?, endp := ← e.asNat?, text := t } : Decl)
+    | .list [.atom k, p, e, .atom t, dp] => do
+      some ({ isImport := k == "imp", pos := ← p.asNat?, endp := ← e.asNat?, text := t, docPos := dp.asNat? } : Decl)
     | _ => none)
   some { pkg := pkg, comments := cs, imports := is, decls := ds }
 
